@@ -65,7 +65,7 @@ def handle (line : String) : String :=
         let isMax := kind == "max"
         if !(args.all exact) then "E:unsupported" else
         -- hypothesis of maxMinE_perm (Gaussian operands make max/min throw and are outside it)
-        if !(args.any isComplex) && !(args.all (mmOperandOK isMax)) then "NOT-OK:maxmin-operand" else
+        if !(args.any isComplex) && !(args.all (mmCanonOperand isMax)) then "NOT-OK:maxmin-operand" else
         let sh := showRes dumpMM
         let op2 (a b : Expr) : R Expr := maxMinE isMax [a, b]
         let first := sh (foldlM1 op2 args)
